@@ -59,6 +59,7 @@ def check(ctx):
     n = core.adopt(ctx, c03, lambda o: o["rule"] == "C03.a", "C11.prepared")
     n += core.adopt(ctx, c02, lambda o: o["rule"] == "C02.a" and any(k in o["key"] for k in ("single-disposition", "dispositions=", "setup-runs-before-callback", "postpone-carries")), "C11.prepared")
     n += core.adopt(ctx, c05, lambda o: o["rule"] == "C05.d", "C11.prepared")
+    n += core.adopt(ctx, c02, lambda o: o["rule"] == "C02.d" and ("one-runner-call-per-path" in o["key"] or "runs-own-system" in o["key"]), "C11.prepared")
     ctx.floor("C11.prepared", n, 18, "shared prepare/setup obligations")
     trackers = A.tracker_types(prog)
     for ty in sorted(trackers):
